@@ -61,3 +61,43 @@ func HarnessC17Clean() {
 		sym.Cover("trailing-slash-in")
 	}
 }
+
+// HarnessC17Long: inputs crossing the 128-byte stack buffer of CleanPath: a concrete filler with a
+// symbolic window of w bytes at a chosen place.
+func HarnessC17Long() {
+	total := sym.Param("total")
+	w := sym.Param("w")
+	place := sym.Param("place") // 0 start, 1 middle, 2 end
+	filler := sym.Param("filler")
+	fill := func(n int) string {
+		unit := "a/"
+		switch filler {
+		case 1:
+			unit = "../" // lots of parent references
+		case 2:
+			unit = "b//" // needs rewriting from the start
+		}
+		out := ""
+		for len(out) < n {
+			out += unit
+		}
+		return out[:n]
+	}
+	win := sym.String("win", w)
+	var p string
+	rest := total - w
+	switch place {
+	case 0:
+		p = win + fill(rest)
+	case 1:
+		p = fill(rest/2) + win + fill(rest-rest/2)
+	default:
+		p = fill(rest) + win
+	}
+	got := fox.CleanPath(p)
+	sym.Assert(got == refClean(p), "CleanPath(p) == reference canonical form (long input)")
+	sym.Assert(fox.CleanPath(got) == got, "CleanPath idempotent (long input)")
+	if len(p) > 127 {
+		sym.Cover("input longer than the stack buffer")
+	}
+}
